@@ -238,7 +238,7 @@ def _fused_job(args):
             one = r[i]
             usage = {k: mc._x(v) for k, v in one.resource_usage().items()}
             try:
-                nodes = mc.export_tree(r.data.iloc[i]["Total<SEP>mapping"]())
+                nodes = mc.export_tree_nested(r.data.iloc[i]["Total<SEP>mapping"]())
             except Exception as e:
                 nodes = None
             rows.append({"usage": usage, "nodes": nodes})
@@ -281,33 +281,31 @@ def fused_part(ck):
                 unsupported += 1
                 continue
             cid = "F%d/%d" % (ji, ri)
-            cases.append({"id": cid, "world": world, "nodes": row["nodes"]})
+            cases.append({"id": cid, "world": world, "tree": row["nodes"]})
             meta[cid] = (job, world, row)
     ck.extra["fused_rows"] = total
-    ck.extra["fused_rows_with_nested_splits_not_modelled"] = unsupported
+    ck.extra["fused_rows_not_exported"] = unsupported
     if total == 0:
         raise Machinery("the mapper returned nothing on every chain spec")
     if not cases:
         raise Machinery("spec gap: every returned fused tree has a shape FusedNest does not model")
     path = os.path.join(ck.work, "fused_cases.json")
     json.dump(cases, open(path, "w"))
-    res = ck.tlc("FusedNest", "FusedNest.cfg", env={"CASES_FILE": path}, coverage=False, workers=1, timeout=2400)
+    res = ck.tlc("FusedTree", "FusedTree.cfg", env={"CASES_FILE": path}, coverage=False, workers=4, timeout=2400)
     if not res.ok or len(res.records) != len(cases):
-        raise Machinery("FusedNest run failed: %s\n%s" % (res.violated, res.tail))
-    fused_seen = 0
+        raise Machinery("FusedTree run failed: %s\n%s" % (res.violated, res.tail))
+    fused_seen = nested_seen = 0
     for v in res.records:
         job, world, row = meta[v["id"]]
         ck.traces += 1
         nodes = row["nodes"]
-        is_fused = any(n["kind"] == "T" and n["br"] == 0 for n in nodes)
-        if is_fused:
+        qpos = [j for j, n in enumerate(nodes) if n["kind"] == "Q"]
+        is_fused = bool(qpos) and any(n["kind"] == "T" for n in nodes[:qpos[0]])
+        nested = any(n["kind"] == "Q" for q in qpos for ch in nodes[q]["children"] for n in ch)
+        nested_seen += nested
+        if is_fused or nested:
             fused_seen += 1
             ck.count_nontrivial(("fused", json.dumps(nodes)))
-        if not v["views_ok"]:
-            ck.violation("C06/fused/returned-tree-has-ill-formed-einsum-view",
-                         "a per-Einsum view of the returned tree is not a well-formed mapping: %s" % nodes,
-                         {"kind": "fused", "arch": job[0], "workload": job[1], "metrics": job[2], "world": world, "nodes": nodes})
-            continue
         for m, size in world["size"].items():
             if not size:
                 continue
@@ -316,34 +314,50 @@ def fused_part(ck):
                 kind = "under-reservation" if got < v["peak"][m] else "over-reservation"
                 ck.violation("C06/fused/%s" % kind,
                              "fused tree %s: reported %s bits in %s, execution-time peak of the live tiles is %s"
-                             % ([(n.get("mem"), n.get("t"), n["br"]) if n["kind"] == "S" else (n.get("rv"), n.get("tile"), n["br"]) if n["kind"] == "T" else ("C", n["br"]) for n in nodes],
-                                got, m, v["peak"][m]),
+                             % (tree_str(nodes), got, m, v["peak"][m]),
                              {"kind": "fused", "arch": job[0], "workload": job[1], "metrics": job[2], "world": world, "nodes": nodes,
                               "memory": m})
-    ck.extra["fused_trees_with_shared_loops"] = fused_seen
+    ck.extra["fused_trees_with_shared_loops_or_nested_splits"] = fused_seen
+    ck.extra["fused_trees_with_nested_splits"] = nested_seen
     if len(ck.samples) < 6 and cases:
         c = cases[len(cases) // 2]
-        ck.sample({"generator": "mapper result on a chain", "nodes": c["nodes"], "spec_peak": next(v["peak"] for v in res.records if v["id"] == c["id"]),
+        ck.sample({"generator": "mapper result on a chain", "tree": tree_str(c["tree"]), "spec_peak": next(v["peak"] for v in res.records if v["id"] == c["id"]),
                    "reported_usage": {k: str(mc.fr(x)) for k, x in meta[c["id"]][2]["usage"].items()}})
 
 
-def fused_mapping_yaml(nodes):
-    def line(n, ind):
+def tree_str(nodes):
+    out = []
+    for n in nodes:
         if n["kind"] == "S":
-            return "%s- !Storage {tensors: [%s], component: %s}" % (ind, n["t"], n["mem"])
-        if n["kind"] == "T":
-            return "%s- !Temporal {rank_variable: %s, tile_shape: %d}" % (ind, n["rv"], n["tile"])
-        return "%s- !Compute {einsum: %s, component: MAC}" % (ind, n["einsum"])
+            out.append("%s[%s]" % (n["mem"], n["t"]))
+        elif n["kind"] == "T":
+            out.append("for %s:%s" % (n["rv"], n["tile"]))
+        elif n["kind"] == "C":
+            out.append("C(%s)" % n["einsum"])
+        else:
+            out.append("Seq{" + " || ".join(tree_str(ch) for ch in n["children"]) + "}")
+    return " / ".join(out)
+
+
+def fused_mapping_yaml(nodes):
     out = ["mapping:", "  nodes:"]
-    out += [line(n, "  ") for n in nodes if n["br"] == 0]
-    brs = sorted({n["br"] for n in nodes if n["br"]})
-    if len(brs) == 1:
-        out += [line(n, "  ") for n in nodes if n["br"]]
-    else:
-        out += ["  - !Sequential", "    nodes:"]
-        for b in brs:
-            out += ["    - !Nested", "      nodes:"]
-            out += [line(n, "      ") for n in nodes if n["br"] == b]
+
+    def emit(ns, ind):
+        for n in ns:
+            if n["kind"] == "S":
+                out.append("%s- !Storage {tensors: [%s], component: %s}" % (ind, n["t"], n["mem"]))
+            elif n["kind"] == "T":
+                out.append("%s- !Temporal {rank_variable: %s, tile_shape: %d}" % (ind, n["rv"], n["tile"]))
+            elif n["kind"] == "C":
+                out.append("%s- !Compute {einsum: %s, component: MAC}" % (ind, n["einsum"]))
+            else:
+                out.append("%s- !Sequential" % ind)
+                out.append("%s  nodes:" % ind)
+                for ch in n["children"]:
+                    out.append("%s  - !Nested" % ind)
+                    out.append("%s    nodes:" % ind)
+                    emit(ch, ind + "    ")
+    emit(nodes, "  ")
     return "\n".join(out) + "\n"
 
 
@@ -361,8 +375,8 @@ def replay_fused(path, rec):
     ck = Check("C06", "quick", 0)
     ck.work = d
     p = os.path.join(d, "case.json")
-    json.dump([{"id": "r", "world": rec["world"], "nodes": rec["nodes"]}], open(p, "w"))
-    res = ck.tlc("FusedNest", "FusedNest.cfg", env={"CASES_FILE": p}, coverage=False, workers=1, timeout=600)
+    json.dump([{"id": "r", "world": rec["world"], "tree": rec["nodes"]}], open(p, "w"))
+    res = ck.tlc("FusedTree", "FusedTree.cfg", env={"CASES_FILE": p}, coverage=False, workers=1, timeout=600)
     v = res.records[0]
     bad = False
     for m, size in rec["world"]["size"].items():
